@@ -227,3 +227,43 @@ pub fn non_cf_reason(reg: &PortableRegistry, id: u32) -> Option<String> {
 pub fn fingerprint(reg: &PortableRegistry) -> u64 {
     crate::ev::hash_of(&serde_json::to_string(reg).unwrap_or_default())
 }
+
+/// Transitive parameter coincidence (used only to key known findings): a parameter id of entry
+/// `id` also occurs as a child of some *other* generated type reachable from it. types_equal
+/// hands the root's generics down into nested types, so such an occurrence is taken for the
+/// parameter there.
+pub fn deep_coincidence(reg: &PortableRegistry, id: u32) -> bool {
+    let Some(t) = reg.resolve(id) else { return false };
+    let params: BTreeSet<u32> = t.type_params.iter().filter_map(|p| p.ty.map(|t| t.id)).collect();
+    if params.is_empty() {
+        return false;
+    }
+    let below = reachable(reg, &children(t, false, true), true, true);
+    for g in below {
+        if g == id {
+            continue;
+        }
+        let Some(gt) = reg.resolve(g) else { continue };
+        if !is_generated(gt) {
+            continue;
+        }
+        // children of g reached without going through one of g's own parameters
+        let mut inner = BTreeSet::new();
+        let mut stack = children(gt, false, true);
+        while let Some(x) = stack.pop() {
+            if !inner.insert(x) {
+                continue;
+            }
+            if let Some(xt) = reg.resolve(x) {
+                if !is_generated(xt) {
+                    stack.extend(children(xt, true, true));
+                }
+            }
+        }
+        let own: BTreeSet<u32> = gt.type_params.iter().filter_map(|p| p.ty.map(|t| t.id)).collect();
+        if inner.iter().any(|x| params.contains(x) && !own.contains(x)) {
+            return true;
+        }
+    }
+    false
+}
